@@ -1,5 +1,6 @@
 import FeatModel.Model.Proto
 import FeatModel.Model.Assembly
+import FeatModel.Model.Burgers
 /-! line-protocol driver for the C16 models (CSR/banded/vector scatter and gather, symbolic assembly, cell-loop assembly) -/
 open FeatModel FeatModel.Proto FeatModel.Adj FeatModel.Asm
 
@@ -122,6 +123,14 @@ def handle : P String := do
       let (a, v) := locs.getD c (0, [])
       (⟨a, tm.getD c [], sm'.getD c [], v⟩ : Call)
     pure (assembleOut g calls)
+  | "bgsd" =>
+    -- one Burgers job task over the cells in natural order: the sequence of `local_delta` values
+    skipToRec
+    let tol ← rat; let sdDelta ← rat; let sdNu ← rat; let vn ← rat; let need ← nat
+    let n ← nat
+    let cells ← many n (do let nv ← rat; let h ← rat; pure (nv, h))
+    let ds := Burgers.deltaSeq ⟨tol, sdDelta, sdNu, vn, need != 0⟩ 0 cells
+    pure s!"D {showRatsL ds}"
   | "feasm" =>
     skipToRec
     let kind ← tok
